@@ -477,6 +477,9 @@ func c15Wire() vh.Unit {
 		ping := `{"jsonrpc":"2.0","id":424242,"method":"vipnode_ping","params":[]}`
 		n := 0
 		send := func(text string, wellFormedRequest bool) bool {
+			if u.Expired() {
+				return false
+			}
 			n++
 			u.R.Evaluations++
 			u.R.States++
@@ -498,11 +501,11 @@ func c15Wire() vh.Unit {
 			}
 			if ws != nil {
 				if err := ws.Send(text); err == nil && wellFormedRequest {
-					if _, err := ws.Recv(5 * time.Second); err != nil {
+					if _, err := ws.Recv(time.Minute); err != nil {
 						u.Violate("wire/no-reply-over-websocket", fmt.Sprintf("%s: %v", abbreviate(text), err), nil)
 						ws.Close()
 						ws = nil
-					} else if r, err := ws.Call(ping, 5*time.Second); err != nil || !strings.Contains(r, "pong") {
+					} else if r, err := ws.Call(ping, time.Minute); err != nil || !strings.Contains(r, "pong") {
 						u.Violate("wire/hostile-request-cost-its-connection", fmt.Sprintf("after %s a ping on the same WebSocket connection got %q %v", abbreviate(text), r, err), nil)
 						ws.Close()
 						ws = nil
@@ -517,7 +520,7 @@ func c15Wire() vh.Unit {
 				return false
 			}
 			if n%10 == 0 {
-				if r, err := other.Call(ping, 5*time.Second); err != nil || !strings.Contains(r, "pong") {
+				if r, err := other.Call(ping, time.Minute); err != nil || !strings.Contains(r, "pong") {
 					u.Violate("wire/other-connection-not-served", fmt.Sprintf("after %s the bystander connection got %q %v", abbreviate(text), r, err), nil)
 					return false
 				}
